@@ -199,9 +199,12 @@ Definition check_case (c : case) : N :=
               match legacy_v_denotes V chain with
               | None => 14%N                      (* accepted a V that denotes neither format *)
               | Some (is155, vB) =>
-                (* EIP-155 chain ids are non-negative: for a negative chain id there is no
-                   specification preimage to compare the EIP-155 form with *)
-                let pre_ok := if is155 then bytes_eqb pl (spec_preimage Eip155 f chainN) || (chain <? 0)%Z
+                (* EIP-155 chain ids are non-negative; for a negative supplied chain id the preimage
+                   compared is the EIP-155 one for |chain| (wave 6: what C10_sound_every_chain_partial /
+                   C10_sound_secp256k1_complete_partial prove of the model - big.NewInt(chain).Bytes()
+                   writes the magnitude -; before, the comparison was skipped for chain < 0).
+                   For 0 <= chain, Z.abs_N chain = Z.to_N chain: nothing changes. *)
+                let pre_ok := if is155 then bytes_eqb pl (spec_preimage Eip155 f (Z.abs_N chain))
                               else bytes_eqb pl (spec_preimage Original f chainN) in
                 if negb pre_ok then 11%N
                 else match elem_int l 7, elem_int l 8 with
